@@ -18,7 +18,9 @@ META = {
             "function is regenerated: the statement after the wait must be `return try_pop_n<false,...>(callback, num);` and "
             "the last of the body); executed with a slow producer callback holding an unpublished index while later indices "
             "are published (H ops): the call must return by its deadline with the ready prefix (stuck / mon-timed / "
-            "mon-prefix otherwise).  Public overloads: every forwarded template-argument list (value / pointer / iterator "
+            "mon-prefix otherwise).  "
+            "Deadline arithmetic of the two timed slow paths (coq/BQ/BQDeadlineModel.v: the futex loop with its refresh of the remaining time and the usleep loop, against an arbitrary list of wake-up events; the timeout the refresh starts from, the store-back, the single sampling of begin, the ETIMEDOUT exit, the subtraction, both expiry tests, the spin deadline and quantum are regenerated): for every number and timing of spurious or genuine wake-ups the wait ends by begin + timeout + one scheduling delay (+ one quantum when spinning): c02_timed_futex_wait_meets_deadline, c02_timed_futex_wait_nonpositive_timeout, c02_timed_futex_wait_only_waits_before_deadline, c02_timed_spin_wait_meets_deadline.  "
+            "Public overloads: every forwarded template-argument list (value / pointer / iterator "
             "overloads, the overloads without template arguments, the callback overloads handing <WAIT, WAKE, PUSH_OR_POP> "
             "resp. <CONCURRENT, WAKE, PUSH_OR_POP> to the cores) is regenerated; the model runs `lower` of each client call, "
             "c02_entry_points_forward_flags proves lower = the call as written, so c02_no_lost_wakeup_any_entry / "
